@@ -194,3 +194,31 @@ def find_rel_edges(g, op, lhs, rhs):
         elif SWAP[c[1]] == op and lhs(c[3]) and rhs(c[2]):
             out.append(e)
     return out
+
+
+def clone_faithful(ctx, rule, floor=5):
+    """every hand-written Clone::clone copies each field from the field of the same name (PhantomData excepted)"""
+    n = 0
+    for f in ctx.prog.find(name="clone", trait="Clone"):
+        imp = ctx.prog.impl_by_did.get(f.impl) if f.impl is not None else None
+        if imp is None or imp.get("derived") or f.body is None:
+            continue
+        g = ctx.guards(f)
+        rds = [rd for rd in g.retdefs if rd.expr is not None]
+        key = "%s:%s" % (rule, f.id)
+        if len(rds) != 1 or rds[0].expr[0] != "agg" or len(rds[0].expr) < 4 or not rds[0].expr[3]:
+            continue            # not a field-by-field struct literal (e.g. delegating clones): nothing to compare
+        n += 1
+        e = rds[0].expr
+        wrong = []
+        for name, v in zip(e[3], e[2]):
+            if "PhantomData" in fmt(v) or name == "phantom":
+                continue
+            if not Field(Local(1), name)(strip(v)):
+                wrong.append("%s: %s" % (name, fmt(v)[:60]))
+        if wrong:
+            ctx.bad(rule, key, "%s does not copy every field from the field of the same name: %s" % (f.id, wrong), loc=f.loc)
+        else:
+            ctx.ok(rule, key, "clone copies all %d fields one to one" % len(e[3]), loc=f.loc)
+    if n < floor:
+        ctx.bad(rule, rule + ":floor", "expected at least %d hand-written field-by-field Clone impls, found %d" % (floor, n), kind="anchor")
